@@ -130,13 +130,57 @@ def flow_table(rng):
                 yield ["c04.flow", kf, kfl, [[1, cases]], ex, rng.choice([0, 0, 1])]
 
 
+def peer_case(rng, shape=None, fixed=None):
+    """a client-mode run against the runner's in-process reference servers:
+    [kind, kf, kfl, [[is_reference, [[name, reply, defect], ...]], ...], exit_err]"""
+    shape = shape or rng.choice(["B0", "B1", "B0B1", "B0B1"])
+    kf, kfl, batches = [], [], []
+
+    def cases(suite, n):
+        out = []
+        for x in "abc"[:n]:
+            reply = rng.choice([0, 0, 0, 1, 2, 3])
+            defect = rng.choice([0, 0, 0, 1, 2, 3])
+            if fixed is not None:
+                reply, defect = fixed
+            out.append(["%s/%s" % (suite, x), reply, defect])
+        return out
+
+    def mark(names):
+        if fixed is not None:
+            return
+        m = rng.random()
+        if m < 0.15:
+            kf.extend(names)
+        elif m < 0.3:
+            kfl.extend(names)
+
+    if "B0" in shape:
+        cs = cases("B0", rng.randint(1, 3) if fixed is None else 1)
+        for c in cs:
+            mark([c[0]])
+        batches.append([1, cs])
+    if "B1" in shape:
+        cs = cases("B1", rng.randint(1, 2) if fixed is None else 1)
+        twins = []
+        for c in cs:
+            twin = "B1/(grpc server impl)/" + c[0][3:]
+            mark([c[0], twin])
+            # what the client does on the wire for the twin is its own choice again
+            twins.append([twin, c[1] if fixed is not None else rng.choice([0, 0, 1, 2]),
+                          c[2] if fixed is not None else rng.choice([0, 1, 2, 3])])
+        batches.append([1, cs])
+        batches.append([0, twins])
+    return ["c04.peer", kf, kfl, batches, 1 if (fixed is None and rng.random() < 0.1) else 0]
+
+
 class C04(Prop):
     id = "C04"
     props = "C04_Props"
     coq_files = ("Base", "C04_Model", "C04_Spec", "C04_Proofs", "C04_Props")
     models = ("C04_Model",)
     packages = {"cc": "internal/app/connectconformance"}
-    kinds = {"c04.results": "cc", "c04.flow": "cc", "c04.run": "cc"}
+    kinds = {"c04.results": "cc", "c04.flow": "cc", "c04.run": "cc", "c04.peer": "cc"}
     rule = ("c04.results: EVERY assignment of {pass, assertion failure, client-reported error, setup error, could-not-run, never "
             "answered} x {unmarked, known-failing, known-flaky} x {feedback, none} to 1, 2 and 3 cases (ordered: 36 + 1,296 + 46,656 "
             "tables; thorough: the triples twice), each realised by a randomly chosen way the runner has of producing that fate "
@@ -211,6 +255,13 @@ class C04(Prop):
             yield flow_case(rng, "c04.flow")
         for _ in range(80 if tier == "quick" else 600):
             yield flow_case(rng, "c04.run", nb=rng.randint(1, 4), allow_exit=False)
+        # client mode against the real in-process reference servers: every run has, for each protocol,
+        # a matching result whose request only the server can fault (each defect), and the control
+        for shape in ("B0", "B1"):
+            for defect in (0, 1, 2, 3):
+                yield peer_case(rng, shape=shape, fixed=(0, defect))
+        for _ in range(24 if tier == "quick" else 300):
+            yield peer_case(rng)
 
 
 PROP = C04()
